@@ -8,7 +8,7 @@ from more_executors._impl.common import (
     copy_future_exception,
     try_set_result,
 )
-from .base import f_return, chain_cancel, weak_callback
+from .base import f_return, chain_cancel, weak_callback, OutputFuture
 from .check import ensure_futures
 from ..metrics import track_future
 
@@ -36,7 +36,7 @@ def maketuple(value):
 class Zipper(object):
     def __init__(self, fs):
         self.fs = list(fs)
-        self.out = Future()
+        self.out = OutputFuture()
         self.done = False
         self.lock = Lock()
         self.count_remaining = len(self.fs)
